@@ -41,6 +41,9 @@ type packetNumberSpace struct {
 
 	largestAcked protocol.PacketNumber
 	largestSent  protocol.PacketNumber
+	// [UQUIC] firstPN is the first packet number ever used in this packet number space.
+	// It can be non-zero for the Initial space of a spec-driven client (InitPacketNumber).
+	firstPN protocol.PacketNumber
 }
 
 func newPacketNumberSpace(initialPN protocol.PacketNumber, isAppData bool) *packetNumberSpace {
@@ -55,6 +58,7 @@ func newPacketNumberSpace(initialPN protocol.PacketNumber, isAppData bool) *pack
 		pns:          pns,
 		largestSent:  protocol.InvalidPacketNumber,
 		largestAcked: protocol.InvalidPacketNumber,
+		firstPN:      initialPN,
 	}
 }
 
@@ -379,7 +383,7 @@ func (h *sentPacketHandler) ReceivedAck(ack *wire.AckFrame, encLevel protocol.En
 	pnSpace := h.getPacketNumberSpace(encLevel)
 
 	largestAcked := ack.LargestAcked()
-	if largestAcked > pnSpace.largestSent {
+	if largestAcked > pnSpace.largestSent || ack.LowestAcked() < pnSpace.firstPN {
 		return false, &qerr.TransportError{
 			ErrorCode:    qerr.ProtocolViolation,
 			ErrorMessage: "received ACK for an unsent packet",
@@ -1102,8 +1106,11 @@ func (h *sentPacketHandler) ResetForRetry(now monotime.Time) {
 			h.qlogMetricsUpdated()
 		}
 	}
+	initialFirstPN, appDataFirstPN := h.initialPackets.firstPN, h.appDataPackets.firstPN
 	h.initialPackets = newPacketNumberSpace(h.initialPackets.pns.Peek(), false)
 	h.appDataPackets = newPacketNumberSpace(h.appDataPackets.pns.Peek(), true)
+	// packets sent before the Retry were sent, too
+	h.initialPackets.firstPN, h.appDataPackets.firstPN = initialFirstPN, appDataFirstPN
 	oldAlarm := h.alarm
 	h.alarm = alarmTimer{}
 	if h.qlogger != nil {
